@@ -469,6 +469,9 @@ func fetchOptions(c *Case) *imap.FetchOptions {
 	return o
 }
 
+// (reference, pattern) pairs a caller may ask with; the stub backend answers with the case's data whatever was asked
+var lpTable = [][2]string{{"", "*"}, {"", "%"}, {"Work", "%"}, {"Work/2024", "Q1"}, {"", "INBOX"}}
+
 func (p *peer) exchange(c *Case) *outcome {
 	cl := p.cl
 	got := &Data{}
@@ -479,7 +482,8 @@ func (p *peer) exchange(c *Case) *outcome {
 		if len(c.Req.St) > 0 {
 			opts = &imap.ListOptions{ReturnStatus: statusOptions(c.Req.St[0])}
 		}
-		l, err := cl.List("", "*", opts).Collect()
+		rp := lpTable[c.Req.Lp%len(lpTable)]
+		l, err := cl.List(rp[0], rp[1], opts).Collect()
 		got.List = []ListData{}
 		for _, ld := range l {
 			got.List = append(got.List, fromList(ld))
